@@ -75,6 +75,73 @@ def _job(job):
             "case": {"dir": dname, "proto": p, "kind": kind, "n": n, "size": len(full)}, "extras": [ex1, None, ex2]}
 
 
+_ZW = {}
+
+
+def _zipworld():
+    """World with the full handler list and one archive /arch.zip whose top level is the Cache universe
+    (file a with abstract v1, directory s)."""
+    import zipfile
+    from harness.world import World
+    if "w" not in _ZW:
+        w = World(handlers="full")
+        zp = w.path("arch.zip")
+        with zipfile.ZipFile(zp, "w") as z:
+            z.writestr("a", "content a\n")
+            z.writestr("a.abstract", "v1\n")
+            z.writestr("s/inner.txt", "inner\n")
+        os.utime(zp, (1_000_000_000, 1_000_000_000))
+        _ZW["w"] = w
+    return _ZW["w"]
+
+
+def _zip_cachefiles(w):
+    return sorted(n for n in envsub.REAL["listdir"](w.root) if n.startswith(".cache.pygopherd.zip"))
+
+
+def _zip_request(w):
+    from harness.cachelib import lex_listing
+    r = w.request(b"/arch.zip\r\n")
+    view, ok = lex_listing("G", r.out)
+    if r.escaped is not None:
+        ok = False
+    return {"ev": "request", "p": "G", "view": view, "listed": True, "rewritten": True, "ok": ok}, \
+           {"raw": r.out[:300].decode("latin-1"), "log": r.log[-2:], "escaped": r.escaped}
+
+
+def _zip_sizes():
+    w = _zipworld()
+    for n in _zip_cachefiles(w):
+        os.unlink(os.path.join(w.root, n))
+    _zip_request(w)
+    return {n: os.path.getsize(os.path.join(w.root, n)) for n in _zip_cachefiles(w)}
+
+
+def _zip_job(job):
+    """ZIP index cache (shelve files next to the archive): request ; damage one file ; request."""
+    fname, kind, n = job
+    w = _zipworld()
+    for x in _zip_cachefiles(w):
+        os.unlink(os.path.join(w.root, x))
+    ev1, ex1 = _zip_request(w)
+    p = os.path.join(w.root, fname)
+    with envsub.REAL["open"](p, "rb") as fp:
+        full = fp.read()
+    data = full[:n] if kind == "cut" else b"\0" * len(full)
+    with envsub.REAL["open"](p, "wb") as fp:
+        fp.write(data)
+    dmg = {"ev": "cut", "keep": 0 if n == 0 else 1} if kind == "cut" else {"ev": "zero"}
+    ev2, ex2 = _zip_request(w)
+    init = {"T": 4, "dir": {"a": "v1", "b": "absent"}}
+    return {"id": "zipindex/%s/%s@%d" % (fname, kind, n), "init": init, "events": [ev1, dmg, ev2],
+            "case": {"dir": "zipindex:" + fname, "proto": "G", "kind": kind, "n": n, "size": len(full)},
+            "extras": [ex1, None, ex2]}
+
+
+def _any_job(job):
+    return _zip_job(job[1:]) if job[0] == "zip" else _job(job)
+
+
 def _size(dname):
     d, filler, handlers = DIRS[dname]
     cw = _cw(handlers)
@@ -93,7 +160,10 @@ def main(chk, replay=None):
     if replay:
         with open(replay) as fp:
             c = json.load(fp)["case"]
-        jobs = [(c["dir"], c["proto"], c["kind"], c["n"])]
+        if str(c["dir"]).startswith("zipindex:"):
+            jobs = [("zip", c["dir"].split(":", 1)[1], c["kind"], c["n"])]
+        else:
+            jobs = [(c["dir"], c["proto"], c["kind"], c["n"])]
     else:
         for dname in t["dirs"]:
             size = _size(dname)
@@ -104,7 +174,15 @@ def main(chk, replay=None):
         for cw in _CW.values():
             cw.close()
         _CW.clear()
-    traces = cachelib.pool_map(_job, jobs, None)
+        zs = _zip_sizes()
+        if not zs:
+            raise core.MachineryError("C11: the ZIP index cache files were not created")
+        for fname, size in sorted(zs.items()):
+            for n in range(0, size):
+                jobs.append(("zip", fname, "cut", n))
+            jobs.append(("zip", fname, "zero", size))
+        _ZW.pop("w").close()
+    traces = cachelib.pool_map(_any_job, jobs, None)
     tv = tlc.validate_traces("TraceC10", "TraceC10.cfg",
                              [{"id": tr["id"], "init": tr["init"], "events": tr["events"]} for tr in traces])
     for rj in tv["rejected"]:
